@@ -38,7 +38,9 @@ def gen_case(rng):
         extra = [f"{name}<SEP>action<SEP>GLB<SEP>T{k}<SEP>read" for k in range(rng.randint(0, 3))] + \
                 ([f"{name}<SEP>energy<SEP>GLB<SEP>T0<SEP>read"] if rng.random() < 0.5 else []) + \
                 ([f"{name}<SEP>mapping"] if rng.random() < 0.5 else [])
-        einsums[name] = {"sizes": sizes, "jcols": jcols, "extra": extra}
+        # detail columns that only some groups of the Einsum carry (as <E><SEP>stride2 / n_iterations columns do in real tables)
+        gextra = [[f"{name}<SEP>stride{k}" for k in range(3) if rng.random() < 0.4] for _ in range(ntab)]
+        einsums[name] = {"sizes": sizes, "jcols": jcols, "extra": extra, "gextra": gextra}
     n_sel = rng.choice([1, 1, 2, 3, 7, 20])  # an empty join result is outside the property (no result rows); decompress raises on it (observation in DESIGN)
     sel = []
     for _ in range(n_sel):
@@ -66,11 +68,14 @@ def run_case(I, case):
                 d = {c: float((gid * 7 + k) % 11) for k, c in enumerate(e["jcols"])}
                 d[f"{name}<SEP>payload"] = gid
                 for k, c in enumerate(e["extra"]):
-                    d[c] = {"id": gid} if c.endswith("mapping") else float(gid * 100 + k)
+                    # values that float32 cannot represent: a cast anywhere in the round trip is visible
+                    d[c] = {"id": gid} if c.endswith("mapping") else (float(gid * 100 + k) + 0.1 if k % 2 == 0 else 16777217.0 + gid)
+                for k, c in enumerate(e.get("gextra", [[]] * len(e["sizes"]))[t]):
+                    d[c] = float(gid) + 0.3
                 rows.append(d)
                 orig.append(d)
                 gid += 1
-            cols = e["jcols"] + [f"{name}<SEP>payload"] + e["extra"]
+            cols = e["jcols"] + [f"{name}<SEP>payload"] + e["extra"] + e.get("gextra", [[]] * len(e["sizes"]))[t]
             df = pd.DataFrame(rows, columns=cols)
             df.index = list(range(100, 100 + sz))  # arbitrary pre-existing index, must be reset
             pdf = I["PDF"](df, n_total_pmappings=sz, n_valid_pmappings=sz, ignored_resources=set(),
@@ -107,7 +112,10 @@ def run_case(I, case):
         for i, r in enumerate(sel):
             for name, e in case["einsums"].items():
                 src = payload[name][r[name]]
-                for c in [f"{name}<SEP>payload"] + e["extra"]:
+                for c in [k for k in src if k not in e["jcols"]]:
+                    if c not in res.columns:
+                        detail_bad = f"column {c} of source row {r[name]} is missing from the result"
+                        continue
                     v = res[c].iloc[i]
                     if (v != src[c]) if not isinstance(src[c], float) else (float(v) != src[c]):
                         detail_bad = f"row {i} column {c}: got {v!r}, source row {r[name]} has {src[c]!r}"
